@@ -265,8 +265,8 @@ class Explore:
         for backend in ("tree-file", "tree-gitconfig", "bare-file"):
             for prop in PROPS:
                 for value, cls in values(tier):
-                    if cls == "semicolon" and backend == "tree-gitconfig":
-                        continue  # excluded by the property's quantifier (dulwich config writer)
+                    if ";" in value and backend == "tree-gitconfig":
+                        continue  # excluded by the property's quantifier (dulwich config writer truncates at ';')
                     if prop == "color" and not (value.startswith("#") and len(value) in (7, 9)):
                         continue
                     n += 1
@@ -282,7 +282,7 @@ class Explore:
         for form in ("file", "gitconfig"):
             for (coll, ns, name, kind) in HTTP_PROPS:
                 for value, cls in http_values(kind, tier):
-                    if cls == "semicolon" and form == "gitconfig":
+                    if ";" in value and form == "gitconfig":
                         continue
                     n += 1
                     try:
